@@ -235,7 +235,22 @@ func c16(w *core.World, r *core.Report) {
 			}
 			site := core.Site(f, "%s", what)
 			ok := false
-			for _, g := range core.GuardsOf(e) {
+			guards := core.GuardsOf(e)
+			// an effect inside a helper that is part of f (slot.clear()): the guards of the helper's call count
+			for fn, d := e.Parent(), 0; fn != f && core.IsInlined(fn) && d < 4; d++ {
+				var next *ssa.Function
+				for _, s := range core.InlineSites(fn) {
+					if s.Parent() == f || core.InBody(f, s.Parent()) {
+						guards = append(guards, core.GuardsOf(s)...)
+						next = s.Parent()
+					}
+				}
+				if next == nil {
+					break
+				}
+				fn = next
+			}
+			for _, g := range guards {
 				// operands of the condition
 				var ops []ssa.Value
 				if a, b, _, isEq := core.EqTest(g.If.Cond); isEq {
@@ -243,6 +258,17 @@ func c16(w *core.World, r *core.Report) {
 				} else {
 					v, _ := core.StripNot(g.If.Cond)
 					ops = append(ops, v)
+				}
+				// a condition computed by a small predicate of the package (slot.holds(trans)): the operands of
+				// the comparison it returns
+				for _, op := range ops {
+					for _, o := range core.Origins(op) {
+						if a, b, _, isEq := core.EqTest(o); isEq && o != g.If.Cond {
+							ops = append(ops, a, b)
+						} else if x, _, isNil := core.NilTest(o); isNil && o != g.If.Cond {
+							ops = append(ops, x)
+						}
+					}
 				}
 				for _, op := range ops {
 					for _, o := range append(core.Origins(op), op) {
